@@ -1,6 +1,6 @@
 //! ops 0..: the error wire formats of server_fn/src/error.rs, driven through the public API.
 use server_fn::{
-    error::{FromServerFnError, ServerFnError},
+    error::{FromServerFnError, ServerFnError, ServerFnUrlError},
     Bytes,
 };
 use std::{fmt, str::FromStr};
@@ -89,13 +89,86 @@ fn with_cust<C: Cust>(c: &Sexp) -> Sexp {
             let back = ServerFnError::<C>::de(Bytes::from(c.at(2).bytes()));
             err_to_sexp(&back)
         }
+        // URL form: ServerFnUrlError::to_url, then what the client side reads back
+        // (the last __path / __err query pair, decode_err)
+        4 => {
+            let e: ServerFnError<C> = err_from_case(c.at(2).num(), c.at(3));
+            let path = text(c.at(4));
+            let base = url_string(c.at(5), c.at(6), c.at(7));
+            let url = match ServerFnUrlError::new(&path, e).to_url(&base) {
+                Ok(u) => u,
+                Err(err) => return Lst(vec![Num(-1), Sexp::from_str(&err.to_string())]),
+            };
+            let s = url.as_str().to_string();
+            let parsed = url::Url::parse(&s).expect("to_url produced an unparsable URL");
+            let mut p_back = None;
+            let mut e_back = None;
+            for (k, v) in parsed.query_pairs() {
+                if k == "__path" {
+                    p_back = Some(v.to_string());
+                } else if k == "__err" {
+                    e_back = Some(v.to_string());
+                }
+            }
+            Lst(vec![
+                Sexp::from_str(&s),
+                opt(p_back.map(|p| Sexp::from_str(&p))),
+                opt(e_back.map(|v| {
+                    err_to_sexp(&ServerFnUrlError::<ServerFnError<C>>::decode_err(&v))
+                })),
+            ])
+        }
+        5 => {
+            let back = ServerFnUrlError::<ServerFnError<C>>::decode_err(&text(c.at(2)));
+            err_to_sexp(&back)
+        }
         _ => Lst(vec![]),
     }
 }
 
+fn opt(o: Option<Sexp>) -> Sexp {
+    Lst(o.into_iter().collect())
+}
+
+/// pre ++ ?query ++ #fragment
+fn url_string(pre: &Sexp, q: &Sexp, f: &Sexp) -> String {
+    let mut s = text(pre);
+    if let Some(q) = q.list().first() {
+        s.push('?');
+        s.push_str(&text(q));
+    }
+    if let Some(f) = f.list().first() {
+        s.push('#');
+        s.push_str(&text(f));
+    }
+    s
+}
+
+fn b64_result(r: Result<Bytes, impl fmt::Display>) -> Sexp {
+    match r {
+        Ok(b) => Lst(vec![Num(0), Sexp::from_bytes(&b)]),
+        Err(e) => Lst(vec![Num(1), Sexp::from_str(&e.to_string())]),
+    }
+}
+
 pub fn run(c: &Sexp) -> Sexp {
-    match c.at(1).num() {
-        0 => with_cust::<server_fn::error::NoCustomError>(c),
-        _ => with_cust::<Code>(c),
+    use server_fn::{codec::CborEncoding, FormatType};
+    match c.at(0).num() {
+        // FormatType::Binary: STANDARD_NO_PAD text form of binary-encoded values
+        2 => {
+            let w = CborEncoding::into_encoded_string(Bytes::from(c.at(1).bytes()));
+            let back = CborEncoding::from_encoded_string(&w);
+            Lst(vec![Sexp::from_str(&w), b64_result(back)])
+        }
+        3 => b64_result(CborEncoding::from_encoded_string(&text(c.at(1)))),
+        6 => {
+            let mut s = url_string(c.at(1), c.at(2), c.at(3));
+            ServerFnUrlError::<ServerFnError>::strip_error_info(&mut s);
+            Sexp::from_str(&s)
+        }
+        _ => match c.at(1).num() {
+            0 => with_cust::<server_fn::error::NoCustomError>(c),
+            _ => with_cust::<Code>(c),
+        },
     }
 }
